@@ -281,7 +281,16 @@ def case_key(r):
     return "c08:%s:%s" % (r["k"], r.get("name", ""))
 
 
-def evaluate(ck, recs):
+# smallest number of cases per record kind in a (non-replay) run; met by construction
+FLOORS = {"r": 5000, "w": 500, "s": 1500, "l32": 300, "dv": 100, "id": 200, "store": 4, "nil": 20, "wb": 50}
+
+
+def evaluate(ck, recs, floors=False):
+    if floors:
+        for k, need in sorted(FLOORS.items()):
+            n = sum(1 for r in recs if r["k"] == k)
+            if n < need:
+                ck.fail_obligation("case-floor:" + k, "only %d cases of kind %s (floor %d): a generator produced (almost) nothing" % (n, k, need))
     skipped = 0
     for k, (typ, fn, mk, what) in KINDS.items():
         rs = [r for r in recs if r["k"] == k]
@@ -314,6 +323,21 @@ def evaluate(ck, recs):
     check_store(ck, recs)
     check_nil(ck, recs)
     check_big_writes(ck, recs)
+    for r in recs:
+        if r["k"] == "nb":
+            ck.count()
+            ck.nontrivial(("nb", r["target"]))
+            if not r["ok"] or r["nested"] != r["target"]:
+                f = dict(kind="input", key="c08:nested-length-boundary:spec", case=r,
+                         what="Block with a nested header of %d bytes (intended %d): %s" % (r["nested"], r["target"], r.get("why") or "size not reached"))
+                f["spec_violated"] = bool(r.get("why"))
+                f["theorem_or_correspondence"] = "C08 oracle: Decode accepts Encode at the nested length-prefix boundaries"
+                ck.failures.append(f)
+    # structs the directly-built-value class cannot construct from outside their package (unexported fields)
+    names = sorted({r["name"] for r in recs if r["k"] == "s"})
+    built = {r["name"] for r in recs if r["k"] == "dv"}
+    if names:
+        ck.extra["dv_not_buildable"] = [n for n in names if n not in built]
 
 
 def nontrivial(ck, r):
@@ -352,7 +376,7 @@ def run(ck):
     if got is None:
         return
     recs += got
-    evaluate(ck, recs)
+    evaluate(ck, recs, floors=True)
     for k in ("r", "w"):
         for r in [x for x in recs if x["k"] == k][:2]:
             ck.sample(r)
